@@ -340,10 +340,23 @@ def _canonicalise_names(raw, unit):
     raw["_renamed"] = ren
 
 
+def _substitute_new_locals(raw, unit):
+    """New single-definition locals (unknown to the frozen reference) are replaced by their defining expression (engine/alias.py)."""
+    if raw.get("_alias_done") is not None:
+        return
+    raw["_alias_done"] = []
+    ref = _namemap().get(unit, {}).get(raw["name"])
+    if not ref:
+        return
+    import alias as _alias
+    raw["_alias_done"] = _alias.substitute_new_locals(raw, {n for _t, n in ref})
+
+
 class Func:
     def __init__(self, raw, unit):
         _canonicalise_names(raw, unit)
         _canonicalise_params(raw)
+        _substitute_new_locals(raw, unit)
         self.raw = raw
         self.name = raw["name"]
         self.unit = unit
